@@ -197,7 +197,11 @@ pub(crate) async fn git_cmd_diff_changes(
 ) -> Result<Vec<Change>, MonorailError> {
     // --no-renames: a moved file is reported as both its old and its new path.
     // -z: paths are emitted verbatim and NUL-terminated, never quoted or escaped.
-    let mut args = vec!["diff", "--name-only", "--no-renames", "-z"];
+    // --relative: paths are relative to (and limited to) the directory of the configuration
+    // file, like the target paths and like what `ls-files --others` prints; without it a
+    // configuration kept in a subdirectory of the repository gets repository-root paths
+    // that match no target.
+    let mut args = vec!["diff", "--name-only", "--no-renames", "-z", "--relative"];
     if let Some(begin) = begin {
         args.push(begin);
     }
